@@ -1410,7 +1410,9 @@ class SliceSubsetState(SubsetState):
                     subslices.append(slices[i])
                 elif np.isscalar(view[i]):
                     beg, end, stp = slices[i].indices(data.shape[i])
-                    if view[i] < beg or view[i] >= end or (view[i] - beg) % stp != 0:
+                    # Negative indices count from the end of the axis
+                    idx = range(data.shape[i])[view[i]]
+                    if idx < beg or idx >= end or (idx - beg) % stp != 0:
                         return np.broadcast_to(False, shape)
                 elif isinstance(view[i], slice):
                     if view[i].step is not None and view[i].step < 0:
